@@ -759,6 +759,57 @@ func genRing(r *vlib.R, emit func(string)) {
 	emit("segmap dump")
 }
 
+// genFail: the failure cache: generations recorded, renewed after expiry
+// (CompareAndSwap), reset (CompareAndDelete), looked up; clock injected.
+func genFail(r *vlib.R, emit func(string)) {
+	ini := uint64(1+r.Intn(4)) * 1e9
+	mx := ini * uint64(vlib.Pick(r, []int{1, 2, 3, 8, 16, 60}))
+	if mx > 300e9 {
+		mx = 300e9
+	}
+	emit(fmt.Sprintf("fail new %d %d %d", vlib.Pick(r, []int{64, 64, 200}), ini, mx))
+	now := uint64(0)
+	retry := map[uint64]uint64{}
+	nq := uint64(r.Range(2, 6))
+	nops := r.Range(20, 60)
+	for i := 0; i < nops; i++ {
+		q := uint64(r.Intn(int(nq)))
+		// move the clock: often exactly to / just before / just after the retry time, sometimes far beyond
+		switch r.Intn(6) {
+		case 0:
+		case 1:
+			if t, ok := retry[q]; ok && t >= now {
+				now = t
+			}
+		case 2:
+			if t, ok := retry[q]; ok && t > now+1 {
+				now = t - 1
+			}
+		case 3:
+			if t, ok := retry[q]; ok && t >= now {
+				now = t + mx + uint64(r.Intn(3))*1e9 - 1e9
+			}
+		default:
+			now += uint64(r.Intn(5)) * 5e8
+		}
+		switch x := r.Intn(10); {
+		case x < 6:
+			emit(fmt.Sprintf("fail record %d %d", q, now))
+			if w, ok := fcRef[q]; ok {
+				retry[q] = w[1]
+			}
+		case x < 8:
+			emit(fmt.Sprintf("fail lookup %d %d", q, now))
+		case x < 9:
+			emit(fmt.Sprintf("fail reset %d", q))
+			delete(retry, q)
+		default:
+			emit("fail len")
+		}
+	}
+	emit("fail len")
+}
+
 // genAns: the answer caches (PositiveCache / NegativeCache): live and already
 // expired entries stored over each other, looked up, removed.
 func genAns(r *vlib.R, emit func(string)) {
@@ -812,6 +863,9 @@ func genStall(r *vlib.R, tier string, emit func(string)) {
 	}
 	emit(fmt.Sprintf("conc limrace 0 %d", r.U64()>>1))
 	// the expiry-cleanup route of the answer caches racing a republishing writer
+	for mode := 0; mode <= 2; mode++ {
+		emit(fmt.Sprintf("conc failrace %d %d", mode, r.U64()>>1))
+	}
 	emit(fmt.Sprintf("conc expire neg 3000 %d", r.U64()>>1))
 	emit(fmt.Sprintf("conc expire pos 3000 %d", r.U64()>>1))
 	if tier == "thorough" {
@@ -1088,6 +1142,8 @@ func gen(r *vlib.R, n int, tier string, emit0 func(string)) {
 	genSparse(r, emit)
 	genAns(r, emit)
 	genAns(r, emit)
+	genFail(r, emit)
+	genFail(r, emit)
 	genRing(r, emit)
 	genLimChurn(r, tier, emit)
 	genUmapLong(r, emit)
@@ -1108,7 +1164,11 @@ func gen(r *vlib.R, n int, tier string, emit0 func(string)) {
 		case x >= 97:
 			genSparse(r, emit)
 		case x >= 94 && x < 95:
-			genAns(r, emit)
+			if r.Bool() {
+				genAns(r, emit)
+			} else {
+				genFail(r, emit)
+			}
 		case x >= 95:
 			genSegLong(r, emit)
 		case x < 50:
